@@ -170,3 +170,12 @@ func vh_C15_concurrent_file_reads() {
 	vAssert((got[0] == a && got[1] == b) || (got[0] == b && got[1] == a), "the two reads return the two bytes of the file, one each")
 	vAssert(f.offset == 2, "the offset ends behind both reads")
 }
+
+// with the allocator: the two page-lifetime lemmas the atomicity argument
+// needs (shared with C18) - a request's pages are recorded under its order id,
+// and pages are given back only after the response that refers to them has been
+// handed to the sender, whatever order the responses complete in (added after
+// seeded changes C15-a / C15-e, which only C18's check reported)
+func vh_C15_alloc_release_after_send() { vAllocReleaseAfterSend() }
+
+func vh_C15_alloc_pages_tagged() { vAllocPagesTagged() }
